@@ -41,6 +41,7 @@ type target struct {
 	Root  int
 	Field *fieldKey // outermost field below the root object, nil = the root object itself / unknown position
 	Glob  *ssa.Global
+	Deref bool // the storage is reached through a reference loaded from that field (its elements), not the field cell itself
 }
 
 type effect struct {
@@ -137,6 +138,7 @@ func (ms *modSets) resolve(fn *ssa.Function, v ssa.Value, depth int) []target {
 					out = append(out, target{Root: rootLocal})
 					continue
 				}
+				b.Deref = true
 				out = append(out, b)
 			}
 			return out
